@@ -78,12 +78,13 @@ var (
 func main() {
 	r := mon.Start("C07")
 	defer r.Finish()
-	r.SetRule("types: static family (generic API) + reflect.StructOf family with default= on the documented kinds, excluding a lone binary `request` field; per type: exact batch, column permutations (all when <=4 columns), every single-column deletion, extra columns (new / duplicate name; front / middle / end), each column's type perturbed to a castable and a non-castable neighbour, nullability flipped, names case-changed / padded, null in every nullable column (one at a time and all at once), schema-level metadata added, wrapped-`request` shape (exact inner, perturbed inner, garbage, empty); each through pipe unary, pipe stream, HTTP unary, HTTP /init. One case = one (type, batch, dispatch path); distinct = distinct (type, perturbation, detail, path); trivial = none")
+	r.SetRule("types: static family (generic API) + reflect.StructOf family with default= on the documented kinds, excluding a lone binary `request` field; per type: exact batch, column permutations (all when <=4 columns), every single-column deletion, extra columns (new / duplicate name; front / middle / end), each column's type perturbed to a castable and a non-castable neighbour, nullability flipped, names case-changed / padded, dictionary columns built by hand with 2..6 distinct entries and the selected entry at a random position (every second value keeps the single-entry builder form), null in every nullable column (one at a time and all at once), schema-level metadata added, wrapped-`request` shape (exact inner, perturbed inner, garbage, empty); each through pipe unary, pipe stream, HTTP unary, HTTP /init. One case = one (type, batch, dispatch path); distinct = distinct (type, perturbation, detail, path); trivial = none")
 	r.Assume("values are kept inside 1970..2262 / UTC midnight dates / non-pointer maps so that C08's range and *map findings do not show up here; for the wrapped-`request` shape the gate is applied to the INNER batch (the decoder documents that it accepts both shapes); a null in a nullable NON-pointer column without default= is only required to dispatch (the statement does not say what the field holds)")
 	r.Require("verdict:equal-dispatched", "verdict:mismatch-rejected", "pert:exact", "pert:permute", "pert:delete", "pert:extra", "pert:type-castable",
 		"pert:type-noncastable", "pert:nullability", "pert:rename", "pert:null", "pert:null-default", "pert:wrapped-exact", "pert:wrapped-perturbed",
 		"pert:wrapped-garbage", "pert:schema-metadata", "pert:nested-type", "arm:pipe-unary", "arm:pipe-stream", "arm:http-unary", "arm:http-init",
-		"family:static", "family:dynamic", "default:string", "default:int", "default:float", "default:bool", "default:pointer-form", "default:nullable-form")
+		"family:static", "family:dynamic", "default:string", "default:int", "default:float", "default:bool", "default:pointer-form", "default:nullable-form",
+		"dict:multi-entry:non-first-selected", "dict:builder-single-entry")
 
 	nDyn := r.N(70, 20000)
 	valuesPerType := r.N(2, 3)
@@ -220,6 +221,25 @@ func runType(r *mon.Run, h http.Handler, pipeSrv *vgirpc.Server, ci int, tc *typ
 			r.Fatal("exact batch of %s unreadable: %v", tc.name, err)
 		}
 		exact := recs[0]
+		// Dictionary (enum / dict_string) columns are rebuilt by hand with a
+		// multi-entry dictionary whose selected entry is mostly not the first:
+		// a dictionary builder fed the one value sent can only produce
+		// dictionary=[v], index=0. Every second value keeps the builder's form.
+		if vi != 1 {
+			rb, st := wc.RebuildDictionaries(rng, exact)
+			exact.Release()
+			exact = rb
+			if st.NonFirstSelected > 0 {
+				r.Class("dict:multi-entry:non-first-selected")
+			}
+			if st.FirstSelected > 0 {
+				r.Class("dict:multi-entry:first-selected")
+			}
+			r.Count("dict.arrays_rebuilt", int64(st.Arrays))
+			r.Count("dict.positions_non_first", int64(st.NonFirstSelected))
+		} else {
+			r.Class("dict:builder-single-entry")
+		}
 		perts := perturbations(rng, tc, exact, vi)
 		for pi, p := range perts {
 			for ai, arm := range arms {
